@@ -305,6 +305,14 @@ theorem entryOK_new (s : State) (h : Inv s) (loc : Loc) (cands : List Signer) : 
 theorem entryOK_setEntry (s : State) (loc loc' : Loc) (e e' : Entry) (h : EntryOK s loc e) : EntryOK (setEntry s loc' e') loc e :=
   ⟨storeOK_mono rfl (fun a ha => ha) h.1, h.2⟩
 
+theorem inv_loadActively (s : State) (loc : Loc) (e : Entry) (cands : List Signer) (h : Inv s) (he : EntryOK s loc e) :
+    Inv (loadActively s loc e cands).1 := by
+  unfold loadActively
+  by_cases hc : (e.closed && closedEntriesSkipped) = true
+  · simp only [hc, ↓reduceIte]; exact h
+  · simp only [hc, Bool.false_eq_true, ↓reduceIte]
+    exact inv_loadCRL _ loc _ cands (inv_setEntry s loc _ h he.1 he.2)
+
 theorem inv_addCRL (s : State) (loc : Loc) (cands : List Signer) (h : Inv s) : Inv (addCRL s loc cands).1 := by
   unfold addCRL
   by_cases hu : s.unsupported.contains loc = true
@@ -319,9 +327,7 @@ theorem inv_addCRL (s : State) (loc : Loc) (cands : List Signer) (h : Inv s) : I
       simp only [Bool.false_and, Bool.false_eq_true, ↓reduceIte]
       by_cases hact : (s.cfg.fetch == FetchMode.actively && !e.loaded) = true
       · simp only [hact, ↓reduceIte]
-        have h1 : Inv (setEntry s loc { e with store := { e.store with hasLocs := true } }) :=
-          inv_setEntry s loc _ h he.1 he.2
-        exact inv_loadCRL _ loc _ cands h1
+        exact inv_loadActively s loc e cands h he
       · simp only [hact, Bool.false_eq_true, ↓reduceIte]
         by_cases hsf : e.sigFailed = true
         · simp only [hsf, ↓reduceIte]
@@ -351,9 +357,7 @@ theorem inv_addCRL (s : State) (loc : Loc) (cands : List Signer) (h : Inv s) : I
           have he2 := entryOK_setEntry (setEntry s loc (newEntry s loc cands)) loc loc
             { newEntry s loc cands with store := { (newEntry s loc cands).store with hasLocs := true } }
             { newEntry s loc cands with store := { (newEntry s loc cands).store with hasLocs := true } } he1
-          have h3 := inv_setEntry _ loc
-            { newEntry s loc cands with store := { (newEntry s loc cands).store with hasLocs := true } } h2 he2.1 he2.2
-          exact inv_loadCRL _ loc _ cands h3
+          exact inv_loadActively _ loc _ cands h2 he2
         · simp only [hact, Bool.false_eq_true, ↓reduceIte]
           -- a new entry never has sigFailed set
           have : (newEntry s loc cands).sigFailed = false := rfl
@@ -363,9 +367,7 @@ theorem inv_addCRL (s : State) (loc : Loc) (cands : List Signer) (h : Inv s) : I
         by_cases hact : ((setEntry s loc (newEntry s loc cands)).cfg.fetch == FetchMode.actively &&
             !(newEntry s loc cands).loaded) = true
         · simp only [hact, ↓reduceIte]
-          have h3 := inv_setEntry _ loc
-            { newEntry s loc cands with store := { (newEntry s loc cands).store with hasLocs := true } } h1 he1.1 he1.2
-          exact inv_loadCRL _ loc _ cands h3
+          exact inv_loadActively _ loc _ cands h1 he1
         · simp only [hact, Bool.false_eq_true, ↓reduceIte]
           have : (newEntry s loc cands).sigFailed = false := rfl
           simp only [this, Bool.false_eq_true, ↓reduceIte]
@@ -383,9 +385,12 @@ theorem inv_updateOne (s : State) (loc : Loc) (h : Inv s) : Inv (updateOne s loc
   | some e =>
     simp only
     have he := entryOK_of_mem s h loc e hl
-    by_cases hld : (!e.loaded) = true
-    · simp only [hld, ↓reduceIte]; exact inv_loadCRL s loc e _ h
-    · simp only [hld, Bool.false_eq_true, ↓reduceIte]; exact inv_updateCrlEntry s loc e none h he
+    by_cases hcl : (e.closed && closedEntriesSkipped) = true
+    · simp only [hcl, ↓reduceIte]; exact h
+    · simp only [hcl, Bool.false_eq_true, ↓reduceIte]
+      by_cases hld : (!e.loaded) = true
+      · simp only [hld, ↓reduceIte]; exact inv_loadCRL s loc e _ h
+      · simp only [hld, Bool.false_eq_true, ↓reduceIte]; exact inv_updateCrlEntry s loc e none h he
 
 theorem inv_updateAll (order : List Loc) : ∀ s, Inv s → Inv (updateAll s order) := by
   induction order with
@@ -497,6 +502,12 @@ theorem updateCrlEntry_cfg (s : State) (loc : Loc) (e : Entry) (nc : Option (Lis
     · simp only [hl, Bool.false_eq_true, ↓reduceIte]
       cases hst : stage s.cfg.sigMode refreshHonoursMode (servedAt s loc) (refreshCands e nc) <;> rfl
 
+theorem loadActively_cfg (s : State) (loc : Loc) (e : Entry) (cands : List Signer) : (loadActively s loc e cands).1.cfg = s.cfg := by
+  unfold loadActively
+  split
+  · rfl
+  · rw [loadCRL_cfg]; rfl
+
 theorem addCRL_cfg (s : State) (loc : Loc) (cands : List Signer) : (addCRL s loc cands).1.cfg = s.cfg := by
   unfold addCRL
   split
@@ -505,7 +516,7 @@ theorem addCRL_cfg (s : State) (loc : Loc) (cands : List Signer) : (addCRL s loc
     | some e =>
       simp only [Bool.false_and, Bool.false_eq_true, ↓reduceIte]
       split
-      · rw [loadCRL_cfg]; rfl
+      · rw [loadActively_cfg]
       · split
         · split
           · split <;> rfl
@@ -515,10 +526,10 @@ theorem addCRL_cfg (s : State) (loc : Loc) (cands : List Signer) : (addCRL s loc
       simp only
       split
       · split
-        · rw [loadCRL_cfg]; rfl
+        · rw [loadActively_cfg]; rfl
         · rfl
       · split
-        · rw [loadCRL_cfg]; rfl
+        · rw [loadActively_cfg]; rfl
         · rfl
 
 theorem updateOne_cfg (s : State) (loc : Loc) : (updateOne s loc).cfg = s.cfg := by
@@ -526,8 +537,10 @@ theorem updateOne_cfg (s : State) (loc : Loc) : (updateOne s loc).cfg = s.cfg :=
   split
   · rfl
   · split
-    · exact loadCRL_cfg _ _ _ _
-    · exact updateCrlEntry_cfg _ _ _ _
+    · rfl
+    · split
+      · exact loadCRL_cfg _ _ _ _
+      · exact updateCrlEntry_cfg _ _ _ _
 
 theorem updateAll_cfg (order : List Loc) : ∀ s, (updateAll s order).cfg = s.cfg := by
   induction order with
